@@ -155,6 +155,15 @@ class C04(PropBase):
     def nontrivial(self, case, ans):
         return ans.count("|") >= 1
 
+    chain_diff = []
+
+    def extra(self, ctx):
+        out = []
+        for case, coq_chain, mine in self.chain_diff[:1]:
+            out.append({"case": case, "profile": "model", "found_input": True,
+                        "what": "the chain of the Coq builder (scan_chain, constants from the sources) is %s..., the documented chain is %s..." % (coq_chain[:80], mine[:80])})
+        return out
+
     def coq_layouts(self, rng, n):
         """scan stacks laid out by the extracted Coq builder"""
         reqs, exps = [], []
@@ -190,15 +199,19 @@ class C04(PropBase):
         for req, out, exp in zip(reqs, outs, exps):
             case, chain, wf = out.split(" ## ")
             if wf != "1":
-                raise vlib.CheckFailure("generated scan layout does not satisfy scan_wf_layout: " + req[:300])
+                # the windows in the sources moved away from the documented ones the generator uses: keep the case,
+                # the oracle will show the walker missing the generated chain (and c04_constants no longer proves)
+                self.not_wf = getattr(self, "not_wf", 0) + 1
             mine = "|".join("%d,%d,%d" % (e["instr"], e["resume"], e["sp"]) for e in exp)
-            if chain != mine:
-                raise vlib.CheckFailure("Coq scan_chain differs from the generator's chain for " + req[:300])
             cases.append(case + " " + fmt_exp(exp))
+            if chain != mine:
+                # cannot happen on the unchanged tree (the builder's constants are the documented ones); reported by extra()
+                self.chain_diff.append((cases[-1], chain[:200], mine[:200]))
         return cases
 
     def gen_cases(self, tier, seed):
         rng = Rng(seed)
+        self.chain_diff = []
         cases = []
         dist = {"coq_scan_layouts": 0, "python_chains": {}, "mixed": 0}
         n_a = 1500 if tier == "quick" else 15000
